@@ -812,7 +812,7 @@ pub(crate) fn check_if_response_is_matched(
                         .all(|d| Unpack::<U256>::unpack(&d) > previous_total_diff_before_last_n)
                 };
             if (first_last_n_header_number != start_number && !is_no_sample_matched)
-                || last_last_n_header_number + 1 != last_number
+                || last_last_n_header_number.checked_add(1) != Some(last_number)
             {
                 let errmsg = format!(
                 "there should be all blocks of [{}, {}) since no sampled blocks, but got [{}, {}]",
